@@ -48,6 +48,7 @@ type Store struct {
 	objs        map[Key]map[string]any
 	lastApplied map[Key]map[string]any // what field manager "package-operator" applied last
 	kinds       map[schema.GroupKind]KindInfo
+	extra       []KindInfo // further served versions of registered kinds
 	uidSeq      int
 	rvSeq       int
 	// rejectNames: object names that admission rejects with Invalid (dry-run and real).
@@ -95,6 +96,16 @@ func (s *Store) Register(gvk schema.GroupVersionKind, namespaced, statusSub bool
 	s.mapper.Add(gvk, scope)
 }
 
+// AlsoServe adds a further served version of a registered kind: the same objects under another apiVersion.
+func (s *Store) AlsoServe(gvk schema.GroupVersionKind, namespaced bool) {
+	scope := meta.RESTScopeRoot
+	if namespaced {
+		scope = meta.RESTScopeNamespace
+	}
+	s.mapper.Add(gvk, scope)
+	s.extra = append(s.extra, KindInfo{GVK: gvk, Namespaced: namespaced})
+}
+
 func (s *Store) Unregister(gk schema.GroupKind) {
 	delete(s.kinds, gk)
 	// rebuild mapper
@@ -105,6 +116,15 @@ func (s *Store) Unregister(gk schema.GroupKind) {
 			scope = meta.RESTScopeNamespace
 		}
 		m.Add(ki.GVK, scope)
+	}
+	for _, ki := range s.extra {
+		if _, ok := s.kinds[ki.GVK.GroupKind()]; ok {
+			scope := meta.RESTScopeRoot
+			if ki.Namespaced {
+				scope = meta.RESTScopeNamespace
+			}
+			m.Add(ki.GVK, scope)
+		}
 	}
 	s.mapper = m
 }
@@ -819,6 +839,9 @@ func NewStoreLike(o *Store) *Store {
 	s := NewStore()
 	for _, ki := range o.kinds {
 		s.Register(ki.GVK, ki.Namespaced, ki.StatusSub)
+	}
+	for _, ki := range o.extra {
+		s.AlsoServe(ki.GVK, ki.Namespaced)
 	}
 	return s
 }
